@@ -8,7 +8,9 @@ use std::sync::atomic::{AtomicBool, AtomicU64, AtomicUsize, Ordering};
 use std::sync::Mutex;
 use std::time::Instant;
 
-pub const VERIF_DIR: &str = "/verif";
+pub fn verif_dir() -> String {
+    std::env::var("VERIF_DIR").unwrap_or_else(|_| "/verif".to_string())
+}
 
 #[derive(Clone, Copy, PartialEq, Eq, Debug)]
 pub enum Tier {
@@ -221,7 +223,7 @@ pub struct Finding {
 }
 
 pub fn load_findings() -> Vec<Finding> {
-    let path = format!("{VERIF_DIR}/known_findings.jsonl");
+    let path = format!("{}/known_findings.jsonl", verif_dir());
     let Ok(text) = std::fs::read_to_string(&path) else { return vec![] };
     let mut out = vec![];
     for line in text.lines() {
@@ -313,7 +315,7 @@ pub fn finish(report: Report, collector: &Collector) -> i32 {
     // one replay file + VIOLATION line per distinct (site, kind), capped
     let mut seen: BTreeMap<(String, String), u64> = BTreeMap::new();
     let mut lines = 0;
-    let dir = format!("{VERIF_DIR}/replay/{}", report.property);
+    let dir = format!("{}/replay/{}", verif_dir(), report.property);
     let _ = std::fs::remove_dir_all(&dir);
     for v in &unmatched {
         let key = (v.site.clone(), v.kind.clone());
@@ -360,8 +362,8 @@ pub fn finish(report: Report, collector: &Collector) -> i32 {
         "wall_s": (wall * 1000.0).round() / 1000.0,
         "violations": n_unmatched,
     });
-    let _ = std::fs::create_dir_all(format!("{VERIF_DIR}/evidence"));
-    let path = format!("{VERIF_DIR}/evidence/{}.json", report.property);
+    let _ = std::fs::create_dir_all(format!("{}/evidence", verif_dir()));
+    let path = format!("{}/evidence/{}.json", verif_dir(), report.property);
     if let Err(e) = std::fs::write(&path, serde_json::to_string_pretty(&ev).unwrap()) {
         eprintln!("MACHINERY: cannot write evidence {path}: {e}");
         return 2;
